@@ -49,7 +49,18 @@ MODES = {
     'finally_after_raise': "try:\n    1/0\nfinally:\n    x = 1\n    y = 2\n",
     'reraise_after_cleanup': "try:\n    int('x')\nexcept ValueError:\n    z = 0\n    z = 1\n    raise\n",
     'raise_in_function': "def g():\n    return [][1]\ndef h():\n    v = g()\n    return v\nh()\n",
+    'KeyError_subclass': "class MyKeyError(KeyError):\n    pass\nraise MyKeyError('a')\n",
+    'unicode_decode': "b'\\xff'.decode('utf8')\n",
+    'SyntaxError_other_file': "x = 1\nraise SyntaxError('bad', ('other.py', 7, 1, 'x'))\n",
+    'NameError_with_hostile_getattr': "class A:\n    def __getattr__(self, name):\n        raise ValueError('no')\n    def m(self):\n        return undefined_name\nA().m()\n",
 }
+# the class of the student's own failure, by mode: what sandbox.exception and the feedback have to name
+EXPECT = {'two_argument_exception': 'E', 'custom_exception': 'Mine', 'KeyError': 'KeyError', 'ValueError': 'ValueError',
+          'ZeroDivision': 'ZeroDivisionError', 'NameError': 'NameError', 'KeyError_subclass': 'MyKeyError',
+          'unicode_decode': 'UnicodeDecodeError', 'SyntaxError_other_file': 'SyntaxError',
+          'NameError_with_hostile_getattr': 'NameError', 'assertion': 'AssertionError', 'stop_iteration': 'StopIteration',
+          'RecursionError': 'RecursionError', 'broken_str': 'Broken', 'setattr_broken': 'Frozen', 'sys_exit': 'SystemExit',
+          'raise_in_function': 'IndexError', 'through_library': 'ZeroDivisionError'}
 CONTAINED = [m for m in MODES if m not in ('KeyboardInterrupt', 'GeneratorExit', 'BaseException_subclass', 'normal',
                                            'stdout_closed', 'own_settrace')]
 ESCAPING = ['KeyboardInterrupt', 'GeneratorExit', 'BaseException_subclass']
@@ -148,6 +159,9 @@ def one(entry, mode, tracer, prop):
                 if fb.fields.get('exception_name') != want:
                     fails.append(('describes_class', '%s/%s/%s: feedback names %r, exception is %s' % (
                         entry, mode, tracer, fb.fields.get('exception_name'), want)))
+                elif mode in EXPECT and want != EXPECT[mode]:
+                    fails.append(('describes_class', '%s/%s/%s: the student raised %s, sandbox.exception and the feedback '
+                                  'name %s' % (entry, mode, tracer, EXPECT[mode], want)))
                 lines_ = {'deep_recursion_then_raise': 3, 'many_inputs_then_error': 3, 'through_library': 3, 'raise_BdbQuit': 3, 'ValueError': 1, 'ZeroDivision': 2, 'NameError': 1, 'KeyError': 2, 'assertion': 1,
                           'finally_after_raise': 2, 'reraise_after_cleanup': 2, 'raise_in_function': 2}
                 if entry == 'run' and mode in lines_:
@@ -199,7 +213,8 @@ def bounded(arg):
                 canon += ' (' + mode + ')'
             failures.append({'id': what, 'canon': canon, 'detail': detail, 'entry': entry, 'mode': mode})
     # threaded execution of a file that imports a second student file
-    for mode in ('normal', 'ValueError', 'sys_exit', 'two_argument_exception', 'custom_exception'):
+    for mode in ('normal', 'ValueError', 'sys_exit', 'two_argument_exception', 'custom_exception', 'unicode_decode',
+                 'KeyError_subclass', 'broken_str'):
         evaluations += 1
         distinct.add(('threaded_run_with_import', mode, 'none'))
         try:
